@@ -405,6 +405,51 @@ def server_close_midresponse_case(seed):
     return desc, fails
 
 
+def connection_lost_case(seed):
+    """Both real TCPServer classes: the application is idle in receive() (a long poll, an open WebSocket) when the
+    connection ends by a reset, a plain EOF, or the read timeout.  One disconnect, nothing after it, one access record for
+    the HTTP request, and the handler finishes."""
+    from . import c16
+    from . import rworker as W
+
+    rng = random.Random(seed)
+    how = rng.choice(["reset", "eof", "read-timeout"])
+    kind = rng.choice(["http", "http", "ws"])
+    if kind == "http":
+        opening = b"GET /poll HTTP/1.1\r\nHost: x\r\n\r\n"
+        steps = [("recv",), ("recv",), ("sleep", 0.5)]
+        disc = "http.disconnect"
+    else:
+        opening = (b"GET /ws HTTP/1.1\r\nHost: x\r\nUpgrade: websocket\r\nConnection: Upgrade\r\n"
+                   b"Sec-WebSocket-Key: dGhlIHNhbXBsZSBub25jZQ==\r\nSec-WebSocket-Version: 13\r\n\r\n")
+        steps = [("recv",), ("send", {"type": "websocket.accept"}), ("recv",), ("sleep", 0.5)]
+        disc = "websocket.disconnect"
+    script = [("send", opening), ("sleep", 1.0)] + {"reset": [("reset",)], "eof": [("eof",)], "read-timeout": [("sleep", 3.0)]}[how] + [("sleep", 2.0)]
+    desc = {"seed": seed, "carrier": "h1" if kind == "http" else "ws", "fault": "connection-lost:" + how}
+    fails = []
+    for backend, run in (("asyncio", W.run_asyncio), ("trio", W.run_trio)):
+        cfg = R.make_config(())
+        logged = []
+        cfg._log = R.RecLog(logged)
+        cfg.keep_alive_timeout = 30.0
+        if how == "read-timeout":
+            cfg.read_timeout = 2
+        res = run(c16.scripted([steps]), cfg, script, tail=20.0)
+        apps = res["app"]
+        if not apps:
+            fails.append({"signature": "no-application", "backend": backend, "desc": desc})
+            continue
+        got = [m["type"] for m in apps[0]["received"]]
+        if got.count(disc) != 1 or got[-1] != disc:
+            fails.append({"signature": f"disconnects:{got.count(disc)}", "what": f"{backend}: received {got}", "desc": desc})
+        n_access = sum(1 for x in logged if x[0] == "log.access")
+        if n_access != 1:
+            fails.append({"signature": f"access-records:{n_access}", "what": f"{backend}: {n_access} access records", "desc": desc})
+        if res["handler_error"] is not None or res["handler_done"] is None or res["leftovers"]:
+            fails.append({"signature": "handler-not-finished", "what": f"{backend}: {res['handler_error']} {res['leftovers']}", "desc": desc})
+    return desc, fails
+
+
 def run(ctx):
     rng = ctx.rng
     cases, metas = [], []
@@ -427,7 +472,8 @@ def run(ctx):
         disagreements.extend({"case": metas[k]} for k in failing[4:30])
     oracle_failures, descs = [], []
     for fn, count in ((h1_session, ctx.scale(800, 8000, 2500)), (ws_session, ctx.scale(600, 4000, 1200)),
-                      (h2_session, ctx.scale(500, 4000, 1200)), (server_close_midresponse_case, ctx.scale(6, 60, 20))):
+                      (h2_session, ctx.scale(500, 4000, 1200)), (server_close_midresponse_case, ctx.scale(6, 60, 20)),
+                      (connection_lost_case, ctx.scale(24, 200, 60))):
         for i in range(count):
             d, f = fn(ctx.seed * 32452843 + i)
             descs.append(d)
